@@ -1742,6 +1742,59 @@ def rf157(run):
 
 
 # ---------------------------------------------------------------------------------------------
+# RF158: a failed link step leaves no trace in the environment
+# ---------------------------------------------------------------------------------------------
+
+def rf158(run):
+    rule = 'RF158'
+    run.rule(rule, 'MIR_link, first loop: the error function may return by longjmp, and the context is used again.  Within one item, no '
+                   'diagnostic is reachable after a call that enters something into the environment table (MIR_load_external, setup_global): '
+                   'an import that is reported as undefined must not have been registered — with a NULL address — before the report, '
+                   'otherwise every later link finds the entry, binds the import to NULL without asking the resolver, and a later '
+                   'definition of the name is refused as a redefinition')
+    tu = run.tu('mir')
+    f = tu.func('MIR_link')
+    cfg = f.cfg
+    run.functions_analysed.add(('mir', f.name))
+    errs = [b for b in cfg.blocks if cfg.blocks[b].noreturn]
+    run.control(rule, 'diagnostics of MIR_link found', len(errs) >= 3)
+    muts = set()
+    for nm in ('MIR_load_external', 'setup_global'):
+        muts |= set(calls_in(cfg, nm))
+    run.control(rule, 'MIR_link registers resolved imports', bool(muts))
+    steps = set()
+    for lp in f.walk():
+        if lp['k'] == 'ForStmt' and lp['c'][2] is not None:
+            bstep = cfg.block_of(lp['c'][2])
+            if bstep is not None:
+                steps.add(bstep)
+    n = 0
+    for b0 in sorted(muts):
+        after = cfg.reachable_from(b0, avoid=lambda b: b in steps)
+        # the block itself: an error call that follows the registration inside the same block
+        bad = [e for e in errs if e in after and e != b0]
+        blk = cfg.blocks[b0]
+        same = False
+        if b0 in errs:
+            seen_mut = False
+            for el in blk.elems:
+                for y in F.walk(el):
+                    if y['k'] == 'CallExpr' and y.get('callee') in ('MIR_load_external', 'setup_global'):
+                        seen_mut = True
+                    elif y['k'] == 'CallExpr' and seen_mut and 'MIR_get_error_func' in F.src(y):
+                        same = True
+        n += 1
+        ok = not bad and not same
+        run.ob(rule, ('after', b0), ok, {'registration in block': b0, 'diagnostics reachable afterwards (same item)': len(bad) + int(same)})
+        if not ok:
+            run.violation(rule, f, 'diagnostic after registration', 'in MIR_link an "undefined item" diagnostic is reachable after '
+                          'MIR_load_external / setup_global has entered the name into the environment table (within the same item): when the '
+                          'error function returns, the failed link has registered the name — with the address NULL when the resolver '
+                          'did not know it — and later links bind the import to it silently', line=f.line)
+    return n
+
+
+# ---------------------------------------------------------------------------------------------
 # RF16m: every address load_bss_data_section hands out lies in the section it allocated
 # ---------------------------------------------------------------------------------------------
 
@@ -1784,4 +1837,102 @@ def rf16m(run):
                                   'or its own advance' % F.src(x)[:70], line=x['l'])
     if n < 5:
         raise F.AnalysisBroken('load_bss_data_section: only %d address assignments found' % n)
+    return n
+
+
+# ---------------------------------------------------------------------------------------------
+# RF162: counted strings are never measured as C strings
+# ---------------------------------------------------------------------------------------------
+
+def rf162(run):
+    rule = 'RF162'
+    run.rule(rule, 'a MIR_str_t carries its length and may contain zero bytes (`string "ab\\\\000cd"`, a C array initialised by "ab\\\\0cd").  In '
+                   'mir.c, the generator and mir2c no C-string function (strlen, strcpy, strcmp, strdup, …) is applied to the `s` member of a '
+                   'MIR_str_t, and MIR_new_string_data passes the `len` member as the number of elements: the bytes of a string data item '
+                   'are the declared ones, so the items that continue its section lie at the declared offsets')
+    CSTR = {'strlen', 'strnlen', 'strcpy', 'strncpy', 'strcmp', 'strncmp', 'strdup', 'strcat', 'strchr', 'strrchr', 'strstr'}
+    members = bad = 0
+    for u in ('mir', 'gen', 'mir2c'):
+        tu = run.tu(u)
+        for g in tu.func_list:
+            if g.body is None or not g.file.startswith('/repo') or (u != 'mir' and g.file.endswith('/mir.c')):
+                continue
+            for x in g.walk():
+                if x['k'] == 'MemberExpr' and x['n'] == 's' and 'MIR_str' in (getattr(tu.type(x['c'][0]), 's', '') or ''):
+                    members += 1
+                if x['k'] == 'CallExpr' and x.get('callee') in CSTR:
+                    for a in F.call_args(x):
+                        a0 = F.strip(a)
+                        if any(y['k'] == 'MemberExpr' and y['n'] == 's' and 'MIR_str' in (getattr(tu.type(y['c'][0]), 's', '') or '') for y in F.walk(a0)):
+                            bad += 1
+                            run.functions_analysed.add((u, g.name))
+                            run.ob(rule, (u, g.name, x['l']), False, {'site': '%s:%d %s' % (g.relfile(), x['l'], g.name), 'call': F.src(x)[:70]})
+                            run.violation(rule, g, 'C-string function on a counted string', '%s applies %s to the bytes of a MIR_str_t (`%s`): the '
+                                          'string is cut at its first zero byte, the data item built from it is shorter than declared and '
+                                          'every item that continues its section moves' % (g.name, x['callee'], F.src(a0)[:40]), line=x['l'])
+    run.control(rule, 'MIR_str_t byte pointers seen by the extractor', members >= 5)
+    tu = run.tu('mir')
+    g = tu.func('MIR_new_string_data')
+    run.functions_analysed.add(('mir', g.name))
+    calls = [x for x in g.walk() if x['k'] == 'CallExpr' and x.get('callee') == 'MIR_new_data']
+    if len(calls) != 1:
+        raise F.AnalysisBroken('MIR_new_string_data: the MIR_new_data call was not found')
+    a = F.call_args(calls[0])
+    nel = F.strip(a[3])
+    ok = nel['k'] == 'MemberExpr' and nel['n'] == 'len' and 'MIR_str' in (getattr(tu.type(nel['c'][0]), 's', '') or '')
+    run.ob(rule, ('nel',), ok, {'number of elements passed by MIR_new_string_data': F.src(nel)[:60]})
+    if not ok:
+        run.violation(rule, g, 'length of string data', 'MIR_new_string_data passes `%s` as the number of elements instead of the length of the '
+                      'MIR_str_t: a string with an inner zero byte (or without a final one) gives an item of another size than declared' %
+                      F.src(nel)[:60], line=calls[0]['l'])
+    run.ob(rule, ('c-string functions',), bad == 0, {'MIR_str_t byte pointers': members, 'passed to C-string functions': bad})
+    return 2
+
+
+# ---------------------------------------------------------------------------------------------
+# RF163: the generator releases in item->data only what it put there
+# ---------------------------------------------------------------------------------------------
+
+def rf163(run):
+    rule = 'RF163'
+    run.rule(rule, 'mir-gen.c: `func_item->data` is shared by the engines — the interpreter keeps the prepared code of a function there, and an '
+                   'interpretation of that function may be in progress when a (lazy) generation of it starts.  The generator frees the field '
+                   'only in destroy_func_cfg (the func_cfg that generate_func_code stored) or, inside one function, behind its own store of a '
+                   'gen_malloc result into the field on every path.  It never releases a block it finds there')
+    tu = run.tu('gen')
+    ALLOWED = {'destroy_func_cfg': 'frees the func_cfg stored by generate_func_code, which calls it before returning'}
+    n = 0
+    stores = 0
+    for g in tu.func_list:
+        if g.body is None or not g.file.endswith(('mir-gen.c', 'mir-gen-x86_64.c')):
+            continue
+        cfg = None
+        for x in g.walk():
+            if x['k'] == 'BinaryOperator' and x['op'] == '=' and F.src(F.strip(x['c'][0])).replace(' ', '').endswith('func_item->data') and \
+                    any(y['k'] == 'CallExpr' and (y.get('callee') or '').endswith('malloc') for y in F.walk(x['c'][1])):
+                stores += 1
+            if x['k'] != 'CallExpr' or x.get('callee') not in ('gen_free', 'MIR_free', 'free'):
+                continue
+            args = [F.src(F.strip(a)).replace(' ', '') for a in F.call_args(x)]
+            if not any(a.endswith('func_item->data') for a in args):
+                continue
+            n += 1
+            run.functions_analysed.add(('gen', g.name))
+            ok = g.name in ALLOWED
+            if not ok:
+                cfg = cfg or g.cfg
+                b = cfg.block_of(x)
+                st = set(stores_to(cfg, 'func_item->data'))
+                st = {b_ for b_ in st if any(y['k'] == 'CallExpr' and (y.get('callee') or '').endswith('malloc')
+                                            for el in cfg.blocks[b_].elems for y in F.walk(el))}
+                ok = b is not None and b not in cfg.reachable_from(cfg.entry, avoid=lambda bb: bb in st) and b not in st
+            run.ob(rule, (g.name, x['l']), ok, {'site': '%s:%d %s' % (g.relfile(), x['l'], g.name), 'call': F.src(x)[:60],
+                                               'reason': ALLOWED.get(g.name, 'behind the generator\'s own allocation' if ok else 'not behind an allocation')})
+            if not ok:
+                run.violation(rule, g, 'generator frees foreign item data', '%s frees `func_item->data` (line %d) without having stored its own allocation '
+                              'there: the block belongs to the interpreter (code prepared by generate_icode), and an interpretation of the '
+                              'function that triggered this generation — a recursive call through the lazy thunk — continues in freed memory' %
+                              (g.name, x['l']), line=x['l'])
+    run.control(rule, 'generator stores its own allocations into func_item->data', stores >= 2)
+    run.control(rule, 'the release in destroy_func_cfg is seen', n >= 1)
     return n
